@@ -925,12 +925,13 @@ func splitInlineBox(context *layoutContext, box_ Box, positionX, maxX, bottomSpa
 		}
 
 		var canBreak pr.MaybeBool
-		if lastLetter == letterTrue {
+		if box.Style.GetWhiteSpace() == "pre" || box.Style.GetWhiteSpace() == "nowrap" {
+			// no soft wrap between the children of this box, whatever ends the previous child
+			canBreak = pr.False
+		} else if lastLetter == letterTrue {
 			lastLetter = ' '
 		} else if lastLetter == letterFalse {
 			lastLetter = ' ' // no-break space
-		} else if box.Style.GetWhiteSpace() == "pre" || box.Style.GetWhiteSpace() == "nowrap" {
-			canBreak = pr.False
 		}
 		if canBreak == nil {
 			if lastLetter == 0 || first == 0 {
